@@ -645,6 +645,54 @@ func CheckC15(env *core.Env, rep *core.Report) *core.Result {
 			}
 		}
 	}
+	// TOML's own scalar types (local dates, times, date-times; the decoder yields structures for them)
+	// where a section or a field is expected, in a file that imports or is imported: an error, not a crash
+	{
+		dd := env.Sub("tomlscalars")
+		files := map[string]string{
+			"b.toml":  "[variables]\nx = \"1\"\n[tasks.tb]\ncommand = [\"true\"]\n",
+			"b.yaml":  "tasks:\n  ty:\n    command: [\"true\"]\nvariables:\n  y: \"2\"\n",
+			"a1.toml": "import = [\"b.toml\"]\nvariables = 1979-05-27\n[tasks.entry]\ncommand = [\"true\"]\n",
+			"a2.toml": "import = [\"b.yaml\"]\ntasks = 07:32:00\n",
+			"a3.toml": "import = [\"b.toml\"]\ntasks = 1979-05-27T07:32:00\n",
+			"a4.toml": "import = [\"b.toml\"]\n[tasks.entry]\ncommand = [\"true\"]\ntimeout = 1979-05-27\n[tasks.tb]\ncommand = 07:32:00\n",
+			"a5.yaml": "import: [\"d.toml\"]\nvariables:\n  x: \"1\"\ntasks:\n  entry:\n    command: [\"true\"]\n",
+			"d.toml":  "variables = 1979-05-27\n",
+			"a6.toml": "import = [\"d.toml\", \"b.toml\"]\n[tasks.entry]\ncommand = [\"true\"]\n",
+			"a7.toml": "import = [\"b.toml\"]\n[tasks.entry]\ncommand = [\"true\"]\n[tasks.entry.env]\nD = 1979-05-27\nT = 07:32:00\n",
+		}
+		for name, body := range files {
+			_ = ioutil.WriteFile(filepath.Join(dd, name), []byte(body), 0o644)
+		}
+		for k, start := range []string{"a1.toml", "a2.toml", "a3.toml", "a4.toml", "a5.yaml", "a6.toml", "a7.toml"} {
+			f := filepath.Join(dd, start)
+			for _, args := range [][]string{{"-c", f, "list"}, {"-c", f, "show", "entry"}, {"-c", f, "validate", f}} {
+				res := e.run(dd, "", 10*time.Second, args...)
+				atomic.AddInt64(&byteRuns, 1)
+				if !judge(fmt.Sprintf("toml-scalar-types:%d", k), res, fmt.Sprintf("%s (a TOML date / time where a section or field is expected, with an import): taskctl %s", start, strings.Join(args[2:], " ")), map[string]interface{}{"document": files[start], "stderr": tailS(res.Stderr, 800)}) {
+					break
+				}
+			}
+		}
+	}
+	// an imported directory with entries that are not plain files: a dangling symbolic link, a link
+	// that points at itself, a sub-directory and a FIFO-less oddity named like a configuration
+	{
+		dd := env.Sub("oddentries")
+		_ = os.MkdirAll(filepath.Join(dd, "dir", "sub.yaml"), 0o755)
+		_ = ioutil.WriteFile(filepath.Join(dd, "dir", "a.yaml"), []byte("tasks:\n  entry:\n    command: [\"true\"]\n"), 0o644)
+		_ = os.Symlink(filepath.Join(dd, "nowhere.yaml"), filepath.Join(dd, "dir", "dangling.yaml"))
+		_ = os.Symlink("loop.yaml", filepath.Join(dd, "dir", "loop.yaml"))
+		f := filepath.Join(dd, "tasks.yaml")
+		_ = ioutil.WriteFile(f, []byte("import: [\"dir\"]\ntasks:\n  t:\n    command: [\"true\"]\n"), 0o644)
+		for _, args := range [][]string{{"-c", f, "list"}, {"-c", f, "show", "entry"}, {"-c", f, "validate", f}} {
+			res := e.run(dd, "", 10*time.Second, args...)
+			atomic.AddInt64(&byteRuns, 1)
+			if !judge("directory-import:odd-entries", res, fmt.Sprintf("an imported directory that also holds a dangling link, a link to itself and a sub-directory, all named *.yaml: taskctl %s", strings.Join(args[2:], " ")), map[string]interface{}{"stderr": tailS(res.Stderr, 800)}) {
+				break
+			}
+		}
+	}
 	// sparse documents: the base document gives every key a value; here entries have next to none
 	// (a task without dir whose context is not defined, a watcher with a task only, an empty context, ...)
 	for k, doc := range []string{
@@ -672,7 +720,7 @@ func CheckC15(env *core.Env, rep *core.Report) *core.Result {
 	}
 	e.samples.Add(map[string]interface{}{"kind": "envfile", "lines": []string{"kv", "blank", "nokv"}, "predicted": "Rejected"})
 	return e.result("exploration", int(runs), distinct.N(),
-		"structural: every (position, shape) pair of Shapes.tla - positions = top-level keys, the four sections, one entry of each, every documented field of an entry; shapes = null, int, string, empty string, bool, list, map, list of maps, nested list, deleted, duplicated, unknown key - applied to a base document that uses every documented key, serialised to YAML (all) and JSON/TOML (quick 1/3, thorough all; shapes a format cannot express are skipped and counted) and given to list, show, graph, validate; env_file: line sequences of length <=3 over 12 line classes plus a missing file (quick: all of length <=2 and 1/8 of length 3), predicted accept/reject; byte level: truncation at every 1/16, invalid UTF-8 at three offsets, empty / NUL / deeply nested input, YAML anchors, merge keys and alias expansion; nine configurations fetched from a loopback URL with import entries of every kind (relative, absolute, not valid as URL references, refused, missing); nine sparse documents (entries with next to no fields, an undefined context without dir, watch / exclude patterns that are not well-formed globs); four large valid documents (a layered pipeline with 3^17 paths in both declaration orders, a chain of 300 stages, 300 tasks) that must load, validate and draw within 20 s. distinct_nontrivial = distinct (position, shape, format) and env_file cases executed",
+		"structural: every (position, shape) pair of Shapes.tla - positions = top-level keys, the four sections, one entry of each, every documented field of an entry; shapes = null, int, string, empty string, bool, list, map, list of maps, nested list, deleted, duplicated, unknown key - applied to a base document that uses every documented key, serialised to YAML (all) and JSON/TOML (quick 1/3, thorough all; shapes a format cannot express are skipped and counted) and given to list, show, graph, validate; env_file: line sequences of length <=3 over 12 line classes plus a missing file (quick: all of length <=2 and 1/8 of length 3), predicted accept/reject; byte level: truncation at every 1/16, invalid UTF-8 at three offsets, empty / NUL / deeply nested input, YAML anchors, merge keys and alias expansion; nine configurations fetched from a loopback URL with import entries of every kind (relative, absolute, not valid as URL references, refused, missing); seven TOML files with local dates / times where sections or fields are expected, importing or imported; nine sparse documents (entries with next to no fields, an undefined context without dir, watch / exclude patterns that are not well-formed globs); four large valid documents (a layered pipeline with 3^17 paths in both declaration orders, a chain of 300 stages, 300 tasks) that must load, validate and draw within 20 s. distinct_nontrivial = distinct (position, shape, format) and env_file cases executed",
 		map[string]interface{}{"cases_in_model": len(cases), "skipped_not_expressible": skipped, "byte_level_runs": byteRuns},
 		[]string{"'for all byte strings' is addressed structurally plus a fixed set of byte-level perturbations; no claim of coverage of arbitrary bytes",
 			"oracle: exit status 0 or 1, no panic / fatal error / goroutine dump, bounded time (8-10 s); accept/reject predicted only for unknown keys and env_file lines"})
